@@ -52,14 +52,16 @@ def gen_case(rng, tier, diff=False):
         for b in (cr - 1, cr, min(cr + 1, nblocks - 1)):
             states[b] = 6
     present = [b for b, s in enumerate(states) if s == 6]
-    place = rng.weighted([("asc", 2), ("desc", 2), ("random", 4), ("gaps", 2), ("high", 1)])
+    place = rng.weighted([("asc", 2), ("desc", 2), ("random", 4), ("gaps", 2), ("high", 1), ("logical", 2)])
     bat_off = rng.pick([3 * MB, 4 * MB, 9 * MB])
     bat_mb = (8 * (nblocks + nblocks // cr + 2) + MB - 1) // MB
     first_mb = (bat_off // MB) + bat_mb + rng.randrange(0, 3)
     step = bs // MB
     first_mb += (-first_mb) % 1
     slots = list(range(len(present)))
-    if place == "desc":
+    if place == "logical":
+        slots = list(present)          # block b lies where it would lie in a fully allocated image
+    elif place == "desc":
         slots.reverse()
     elif place == "random":
         rng.shuffle(slots)
